@@ -448,3 +448,25 @@ package kafka
 //@   modifies heap
 //@   ensures result1 != nil ==> result0 == nil
 //@   ensures result1 != nil && conn != nil ==> conn.conn.$cclosed
+
+// Transport side of C18: a connection's request loop is started only after authentication succeeded.
+//@ func saslHandshakeRoundTrip
+//@   trusted one SaslHandshake round trip on the protocol.Conn (framing: C04/C06)
+//@ func saslAuthenticateRoundTrip
+//@   trusted one SaslAuthenticate round trip on the protocol.Conn
+//@ func authenticateSASL
+//@   option noframe
+//@   modifies heap
+//@   ghostdef pc.$authok == (result == nil && sess.$accepted)
+//@   ensures result == nil ==> pc.$authok
+//@   loop 0 invariant completed ==> sess.$accepted
+//@ func (*conn).run
+//@   trusted the request loop of a transport connection (C06/C17 cover its body)
+//@   requires c.group.pool.sasl == nil || pc.$authok
+//@ func (*connGroup).connect
+//@   option noframe
+//@   modifies heap
+//@   unproved index@"g.pool.dial(ctx, network[i], address[i])" multi-address net.Addr values are produced by kafka.TCP/makeMultiAddr with equally long comma-separated network and address lists; an arbitrary user Addr is outside C18
+//@   unproved pre@"apiKey.SelectVersion(r.MinVersion, r.MaxVersion)" version ranges come from the broker's ApiVersions response and the registry (C12 covers SelectVersion under these preconditions)
+//@   unproved typeassert@"r.(*apiversions.Response)" protocol.Conn.RoundTrip returns the response type registered for the request type (C04/C06)
+//@   ensures result1 != nil ==> result0 == nil
